@@ -127,6 +127,18 @@ func dcRun(in []byte) (interface{}, error) {
 			w.Key([]byte("bighash"), typ, body)
 			used[fmt.Sprintf("%d/%x", db, "bighash")] = true
 			ents = append(ents, &dcEntry{db: db, key: []byte("bighash"), kind: "hash", want: v, lines: 3})
+			// always right behind it: a key that is not a hash, then a small plain hash (whatever the loader remembers of the split hash must
+			// not colour them), whatever the random entries after them are
+			sv := rdbref.Value{Kind: "string", Str: []byte("after-the-split-hash")}
+			st, sb, _ := rdbref.EncodeValue(sv, rdbref.Enc{Type: rdbref.TString})
+			w.Key([]byte("after:s"), st, sb)
+			used[fmt.Sprintf("%d/%x", db, "after:s")] = true
+			ents = append(ents, &dcEntry{db: db, key: []byte("after:s"), kind: "string", want: sv, lines: 1})
+			hv := rdbref.Value{Kind: "hash", Hash: []rdbref.HF{{Field: []byte("x"), Value: []byte("1")}, {Field: []byte("y"), Value: []byte("two")}}}
+			ht, hb, _ := rdbref.EncodeValue(hv, rdbref.Enc{Type: rdbref.THash})
+			w.Key([]byte("after:h"), ht, hb)
+			used[fmt.Sprintf("%d/%x", db, "after:h")] = true
+			ents = append(ents, &dcEntry{db: db, key: []byte("after:h"), kind: "hash", want: hv, lines: 2})
 		}
 		for i := 0; i < c.Entries; i++ {
 			if i == chunkAt {
